@@ -411,10 +411,22 @@ def make_boxes(rng, freq, sdirs):
             if key == "dmax" and boxes[0]["dmin"][0] == "val" and boxes[0]["dmin"][1] > 0:
                 boxes[0]["dmin"] = ("omit", None)
     elif mode == "overlap":
-        for _ in range(2):
-            _, _, flo, fhi = rand_range(freq)
-            _, _, dlo, dhi = rand_range(sdirs)
-            boxes.append(dict(fmin=flo, fmax=fhi, dmin=dlo, dmax=dhi))
+        if nf >= 6 and len(sdirs) >= 4 and rng.random() < 0.5:
+            # overlapping pair A, C plus a box B whose fmin lies between theirs but which is disjoint from both in direction
+            f = [float(x) for x in freq]
+            dmid = float(sdirs[len(sdirs) // 2 - 1])
+            dhi_ = float(sdirs[len(sdirs) // 2])
+            A = dict(fmin=("val", f[0]), fmax=("val", f[4]), dmin=("val", float(sdirs[0])), dmax=("val", dmid))
+            B = dict(fmin=("val", f[1]), fmax=("val", f[5]), dmin=("val", dhi_), dmax=("val", float(sdirs[-1])))
+            Cb = dict(fmin=("val", f[2]), fmax=("val", f[5]), dmin=("val", float(sdirs[0])), dmax=("val", dmid))
+            trio = [A, B, Cb]
+            rng.shuffle(trio)
+            boxes.extend(trio)
+        else:
+            for _ in range(2):
+                _, _, flo, fhi = rand_range(freq)
+                _, _, dlo, dhi = rand_range(sdirs)
+                boxes.append(dict(fmin=flo, fmax=fhi, dmin=dlo, dmax=dhi))
     else:  # malformed: fmin >= fmax
         a = rng.randrange(nf)
         boxes.append(dict(fmin=("val", float(freq[a])), fmax=("val", float(freq[rng.randrange(0, a + 1)])), dmin=("omit", None), dmax=("none", None)))
